@@ -10,6 +10,11 @@
    correspondence uses [rnd = id] (exact), the self-tolerance theorem holds for
    every monotone [rnd] that fixes the inputs.
 
+   The display (MHCDisplay) is window bookkeeping — the last window_size
+   observations since the last clear, and every canary result — plus an oracle
+   [pf] from exactly that content to the fingerprint; API-level histories
+   ([aop], [api_run]) lower to system-level ones ([op], [run]).
+
    Hashes are abstract integers.  The agent under surveillance is agent 0;
    memory entries of other agents carry another number.
 
@@ -342,6 +347,78 @@ Fixpoint final (rnd : Q -> Q) (legacy : bool) (g : cfg) (s : sys) (ops : list op
   end.
 
 (* ---------------------------------------------------------------------- *)
+(* MHCDisplay: the fingerprint is a function of the CURRENT window          *)
+
+(* Observations are abstract identifiers.  The display keeps the last
+   [d_size] observations and every canary result; generate_peptide is a
+   function [pf] (an oracle: means, deviations, hashes) of exactly that
+   content, or None below [d_min] observations. *)
+Record display := mkDisp { d_size : nat; d_min : nat; d_obs : list Z; d_canary : list bool }.
+
+(* MHCDisplay.record: append, then pop the oldest if the window overflows *)
+Definition disp_record (d : display) (o : Z) : display :=
+  let l := d_obs d ++ [o] in
+  mkDisp (d_size d) (d_min d) (if (d_size d <? length l)%nat then tl l else l) (d_canary d).
+
+Inductive aop :=
+| ARecord (o : Z)        (* record_observation *)
+| ACanary (passed : bool)(* record_canary_result *)
+| AClear                 (* display.clear() *)
+| AInspect               (* inspect(agent): fingerprint of the current window *)
+| ATrain                 (* train_agent(agent): fingerprint of the current window *)
+| ASys (o : op).         (* any other operation (flag, resets, memory, ...) *)
+
+Definition disp_step (d : display) (a : aop) : display :=
+  match a with
+  | ARecord o => disp_record d o
+  | ACanary b => mkDisp (d_size d) (d_min d) (d_obs d) (d_canary d ++ [b])
+  | AClear => mkDisp (d_size d) (d_min d) [] []
+  | _ => d
+  end.
+
+Definition fingerprint_of (pf : list Z -> list bool -> peptide) (dmin : nat)
+           (w : list Z) (c : list bool) : option peptide :=
+  if (length w <? dmin)%nat then None else Some (pf w c).
+
+(* MHCDisplay.generate_peptide *)
+Definition fingerprint (pf : list Z -> list bool -> peptide) (d : display) : option peptide :=
+  fingerprint_of pf (d_min d) (d_obs d) (d_canary d).
+
+(* the system-level operation an API call amounts to (None: display only) *)
+Definition lower (pf : list Z -> list bool -> peptide) (d : display) (a : aop) : option op :=
+  match a with
+  | AInspect => Some (OInspect (fingerprint pf d))
+  | ATrain => Some (OTrain (fingerprint pf d))
+  | ASys o => Some o
+  | _ => None
+  end.
+
+(* trace of an API history: display and system before each call, the call, its outcome *)
+Fixpoint api_run (pf : list Z -> list bool -> peptide) (rnd : Q -> Q) (legacy : bool) (g : cfg)
+         (d : display) (s : sys) (aops : list aop) : list (display * sys * aop * outcome) :=
+  match aops with
+  | [] => []
+  | a :: rest =>
+      match lower pf d a with
+      | Some o =>
+          let '(s', out) := sys_step rnd legacy g s o in
+          (d, s, a, out) :: api_run pf rnd legacy g d s' rest
+      | None => (d, s, a, OutUnit) :: api_run pf rnd legacy g (disp_step d a) s rest
+      end
+  end.
+
+(* the system-level history an API history amounts to *)
+Fixpoint lowered (pf : list Z -> list bool -> peptide) (d : display) (aops : list aop) : list op :=
+  match aops with
+  | [] => []
+  | a :: rest =>
+      match lower pf d a with
+      | Some o => o :: lowered pf d rest
+      | None => lowered pf (disp_step d a) rest
+      end
+  end.
+
+(* ---------------------------------------------------------------------- *)
 (* finite tables regenerated from the implementation (gen/Gen_C17.v)        *)
 
 Definition sig1_of (z : Z) : sig1 := if z =? 0 then S1Self else if z =? 1 then S1NonSelf else S1Unknown.
@@ -391,12 +468,39 @@ Definition interp_cond (c : ccond) : response -> trec -> bool :=
   | CViolGe k => fun r _ => k <=? Z.of_nat (length (r_viol r))
   end.
 
+Fixpoint zl_eq (a b : list Z) : bool :=
+  match a, b with
+  | [], [] => true
+  | x :: a', y :: b' => (x =? y) && zl_eq a' b'
+  | _, _ => false
+  end.
+Fixpoint bl_eq (a b : list bool) : bool :=
+  match a, b with
+  | [], [] => true
+  | x :: a', y :: b' => Bool.eqb x y && bl_eq a' b'
+  | _, _ => false
+  end.
+
+(* the fingerprint oracle of a case: a finite table from window contents to
+   the reference fingerprint; an absent entry yields a fingerprint that cannot
+   agree with anything *)
+Definition fp_table := list (list Z * list bool * peptide).
+Definition bad_peptide : peptide :=
+  mkPep (-1#1) (-1#1) (-1#1) (-1#1) (-1#1) (-1#1) (-1#1) (-1) (-1) None.
+Fixpoint table_pf (t : fp_table) (w : list Z) (c : list bool) : peptide :=
+  match t with
+  | [] => bad_peptide
+  | (w', c', p) :: r => if zl_eq w w' && bl_eq c c' then p else table_pf r w c
+  end.
+
 Record case := mkCase {
   c_rules : list (level * ccond); c_stab : Z;
   c_tcell : option (profile * Z * Z);   (* installed watcher: profile, repeat thr, anergy thr *)
   c_record : bool;                      (* Treg has a tolerance record for the agent *)
   c_n : Z; c_tmin : Z; c_tol : Q; c_vt : Q;
-  c_ops : list op }.
+  c_win : nat * nat;                    (* window_size, min_observations *)
+  c_table : fp_table;                   (* reference fingerprints of the windows that get inspected *)
+  c_ops : list aop }.
 
 Definition cfg_of (c : case) : cfg :=
   mkCfg (map (fun x => mkRule (fst x) (interp_cond (snd x))) (c_rules c)) (c_stab c)
@@ -405,6 +509,8 @@ Definition cfg_of (c : case) : cfg :=
 Definition init_of (c : case) : sys :=
   mkSys (option_map (fun x => let '(pr, rep, an) := x in fresh_tcell pr rep an) (c_tcell c))
         [] (if c_record c then Some (mkRec 0 0) else None).
+
+Definition disp_of (c : case) : display := mkDisp (fst (c_win c)) (snd (c_win c)) [] [].
 
 Definition b2z (b : bool) : Z := if b then 1 else 0.
 
@@ -444,13 +550,39 @@ Definition op_code (o : op) : Z :=
   | OForget _ => 6 | OSetClean _ => 7 | OTrain _ => 8 | OTregEval _ _ => 9
   end.
 
-Fixpoint obs_run (legacy : bool) (g : cfg) (s : sys) (ops : list op) : list (list Z) :=
-  match ops with
-  | [] => []
-  | o :: rest =>
-      let '(s', out) := sys_step (fun x => x) legacy g s o in
-      (op_code o :: outcome_obs out ++ 77 :: state_obs s') :: obs_run legacy g s' rest
+Definition q_obs (q : Q) : list Z := let r := Qred q in [Qnum r; Zpos (Qden r)].
+
+(* the fingerprint the display handed to the T cell / thymus *)
+Definition pep_obs (po : option peptide) : list Z :=
+  match po with
+  | None => [0]
+  | Some p =>
+      1 :: q_obs (p_ol p) ++ q_obs (p_ols p) ++ q_obs (p_rt p) ++ q_obs (p_rts p) ++
+      q_obs (p_cf p) ++ q_obs (p_cfs p) ++ q_obs (p_err p) ++ [p_vh p; p_sh p] ++
+      match p_canary p with Some a => 1 :: q_obs a | None => [0; 0; 1] end
   end.
 
-Definition run_case (c : case) : list (list Z) := obs_run false (cfg_of c) (init_of c) (c_ops c).
-Definition run_case_legacy (c : case) : list (list Z) := obs_run true (cfg_of c) (init_of c) (c_ops c).
+(* one row per system-level operation; inspections / trainings through the
+   display also show the fingerprint that was used *)
+Fixpoint obs_run (pf : list Z -> list bool -> peptide) (legacy : bool) (g : cfg)
+         (d : display) (s : sys) (aops : list aop) : list (list Z) :=
+  match aops with
+  | [] => []
+  | a :: rest =>
+      match lower pf d a with
+      | None => obs_run pf legacy g (disp_step d a) s rest
+      | Some o =>
+          let '(s', out) := sys_step (fun x => x) legacy g s o in
+          let fp := match a, out with
+                    | ASys _, _ => []
+                    | _, OutRaise => [66; -5]     (* untrained: no fingerprint is generated *)
+                    | _, _ => 66 :: pep_obs (fingerprint pf d)
+                    end in
+          (op_code o :: outcome_obs out ++ fp ++ 77 :: state_obs s') :: obs_run pf legacy g d s' rest
+      end
+  end.
+
+Definition run_case (c : case) : list (list Z) :=
+  obs_run (table_pf (c_table c)) false (cfg_of c) (disp_of c) (init_of c) (c_ops c).
+Definition run_case_legacy (c : case) : list (list Z) :=
+  obs_run (table_pf (c_table c)) true (cfg_of c) (disp_of c) (init_of c) (c_ops c).
